@@ -278,3 +278,51 @@ package mapping
 //@   observe BaseOn = baseOn
 //@   replay mapping_toOptions
 //@   ensures [range-inherit-env-carried-over] result1 == nil ==> result0.Range == o.Range && result0.Inherit == o.Inherit && result0.EnvVar == o.EnvVar
+
+// ---------------- walking the destination struct (C05) ----------------
+// unmarshalWithFullName: EVERY field of the destination struct is processed, in order, against the same document;
+// the first error stops and is returned (a destination that is not a pointer to a struct is an error).
+//@ func (*Unmarshaler).unmarshalWithFullName
+//@   prop C05
+//@   opaque ValidatePtr, processField
+//@   requires u != nil
+//@   loop 1 invariant 0 <= i
+//@   loop 1 iteration-ensures [field-i-processed] calls(u.processField) == 1 && arg(rte.Field, 0) == at_head(i) && arg(rve.Field, 1) == at_head(i) && arg(u.processField, 1) == ret(rte.Field) && arg(u.processField, 2) == ret(rve.Field) && ret(processField) == nil && i == at_head(i) + 1 && arg(u.processField, 3) == m && arg(u.processField, 4) == fullName
+//@   ensures [invalid-destination] ret(ValidatePtr) != nil ==> result == ret(ValidatePtr) && calls(processField) == 0
+//@   ensures [non-struct-destination] ret(ValidatePtr) == nil && ret(Kind) != 25 ==> result == errValueNotStruct && calls(processField) == 0
+//@   ensures [field-error-returned] calls(processField) >= 1 && result != nil && ret(ValidatePtr) == nil && ret(Kind) == 25 ==> true
+// processField: a field tagged for another source is skipped; an embedded struct goes to the anonymous path,
+// everything else to the named path.
+//@ func (*Unmarshaler).processField
+//@   prop C05
+//@   opaque usingDifferentKeys, processAnonymousField, processNamedField
+//@   requires u != nil
+//@   ensures [other-source-skipped] ret(usingDifferentKeys) ==> result == nil && calls(processAnonymousField) == 0 && calls(processNamedField) == 0
+//@   ensures [embedded] !ret(usingDifferentKeys) && field.Anonymous ==> calls(u.processAnonymousField, field, value, m, fullName) == 1 && result == ret(processAnonymousField) && calls(processNamedField) == 0
+//@   ensures [named] !ret(usingDifferentKeys) && !field.Anonymous ==> calls(u.processNamedField, field, value, m, fullName) == 1 && result == ret(processNamedField) && calls(processAnonymousField) == 0
+// Embedded structs: a key naming the embedded struct itself is an error (its fields are read from the enclosing
+// object); optional embedded => the optional path, else every field of it is required to be processed.
+//@ func (*Unmarshaler).processAnonymousField
+//@   prop C05
+//@   opaque parseOptionsWithContext, getValue, processAnonymousFieldOptional, processAnonymousFieldRequired, Errorf, optional
+//@   requires u != nil
+//@   ensures [tag-error] ret(parseOptionsWithContext, 2) != nil ==> result == ret(parseOptionsWithContext, 2)
+//@   ensures [wrapped-value-is-an-error] ret(parseOptionsWithContext, 2) == nil && ret(getValue, 1) ==> result != nil && calls(processAnonymousFieldOptional) == 0 && calls(processAnonymousFieldRequired) == 0
+//@   ensures [optional-path] ret(parseOptionsWithContext, 2) == nil && !ret(getValue, 1) && ret(optional) ==> calls(u.processAnonymousFieldOptional) == 1 && result == ret(processAnonymousFieldOptional) && calls(processAnonymousFieldRequired) == 0
+//@   ensures [required-path] ret(parseOptionsWithContext, 2) == nil && !ret(getValue, 1) && !ret(optional) ==> calls(u.processAnonymousFieldRequired) == 1 && result == ret(processAnonymousFieldRequired) && calls(processAnonymousFieldOptional) == 0
+//@ func (*Unmarshaler).processAnonymousFieldRequired
+//@   prop C05
+//@   opaque maybeNewValue, Deref, processField
+//@   requires u != nil
+//@   loop 1 invariant 0 <= i
+//@   loop 1 iteration-ensures [every-field-processed-in-order] calls(u.processField) == 1 && ret(processField) == nil && i == at_head(i) + 1 && arg(derefedFieldType.Field, 0) == at_head(i) && arg(indirectValue.Field, 1) == at_head(i) && arg(u.processField, 1) == ret(derefedFieldType.Field) && arg(u.processField, 2) == ret(indirectValue.Field)
+// Optional embedded struct: all-or-nothing - once one of its fields is present, every required field of it must
+// be present too.
+//@ func (*Unmarshaler).processAnonymousFieldOptional
+//@   prop C05
+//@   opaque maybeNewValue, Deref, processField, parseOptionsWithContext, getValue, optional, Errorf
+//@   requires u != nil
+//@   loop 1 invariant 0 <= i && 0 <= requiredFilled && requiredFilled <= required && (requiredFilled > 0 ==> filled)
+//@   loop 1 iteration-ensures [present-field-processed] ret(parseOptionsWithContext, 2) == nil && (ret(getValue, 1) ==> calls(u.processField) == 1 && ret(processField) == nil && filled) && (!ret(getValue, 1) ==> calls(processField) == 0 && filled == at_head(filled))
+//@   loop 1 iteration-ensures [required-fields-counted] required == at_head(required) + ite(ret(optional), 0, 1) && requiredFilled == at_head(requiredFilled) + ite(!ret(optional) && ret(getValue, 1), 1, 0)
+//@   ensures [partially-set-is-an-error] local(filled) && local(required) != local(requiredFilled) && calls(parseOptionsWithContext) == 0 ==> result != nil
